@@ -789,6 +789,7 @@ func checkC16(e *Engine, r *Report) {
 
 	// ================================================================== supply partition
 	checkSupplyPartition(e, r, getCpu, "R11:supply-partition@getCpuSupply")
+	checkConstraintsFreshness(e, r)
 
 	// ================================================================== memory attachment
 	{
@@ -1079,4 +1080,147 @@ func elemSourceCall(v ssa.Value) *ssa.Call {
 		}
 	}
 	return nil
+}
+
+// checkConstraintsFreshness: the partition lemma of getCpuSupply assumes what checkConstraints validates about the
+// policy-level sets (reserved within allowed, no mix of isolated and normal CPUs in reserved, isolated within
+// allowed). Those validations and derivations must look at the sets being installed by this very call: every read of
+// p.allowed / p.isolated / p.reserved that is combined with another of them (set algebra in checkConstraints) sees
+// a value stored earlier in the same call on every path — never the value left by a previous Setup/Reconfigure —
+// and that value is not replaced afterwards on the way to a successful return.
+func checkConstraintsFreshness(e *Engine, r *Report) {
+	rule := "R11 supply partition"
+	fn := r.Anchor(pkgTA, "policy.checkConstraints")
+	if fn == nil {
+		return
+	}
+	fields := map[*types.Var]bool{}
+	for _, n := range []string{"allowed", "isolated", "reserved"} {
+		if f := e.Field(pkgTA, "policy", n); f != nil {
+			fields[f] = true
+		} else {
+			r.Undecided("R11:constraints-validate-installed#"+n, rule, "policy."+n+" exists", "-", nil, "field not found")
+		}
+	}
+	// the switch over the kind of amount is exhaustive: enumerate its cases
+	type kindSwitch struct {
+		v  ssa.Value
+		ks []*ssa.Const
+	}
+	var switches []*kindSwitch
+	AllInstrs(fn, func(in ssa.Instruction) {
+		b, ok := in.(*ssa.BinOp)
+		if !ok || b.Op != token.EQL {
+			return
+		}
+		k, isK := b.Y.(*ssa.Const)
+		if !isK || k.Value == nil {
+			return
+		}
+		if n := namedOf(b.X.Type()); n == nil || n.Obj().Name() != "AmountKind" {
+			return
+		}
+		for _, s := range switches {
+			if s.v == b.X {
+				s.ks = append(s.ks, k)
+				return
+			}
+		}
+		switches = append(switches, &kindSwitch{b.X, []*ssa.Const{k}})
+	})
+	var assumptions []Assumption
+	var rec func(i int, chosen []*ssa.Const)
+	rec = func(i int, chosen []*ssa.Const) {
+		if i == len(switches) {
+			ch := append([]*ssa.Const{}, chosen...)
+			assumptions = append(assumptions, func(cond ssa.Value) (bool, bool) {
+				b, ok := cond.(*ssa.BinOp)
+				if !ok || b.Op != token.EQL {
+					return false, false
+				}
+				k, isK := b.Y.(*ssa.Const)
+				if !isK || k.Value == nil {
+					return false, false
+				}
+				for j, s := range switches {
+					if s.v == b.X {
+						return true, k.Value.ExactString() == ch[j].Value.ExactString()
+					}
+				}
+				return false, false
+			})
+			return
+		}
+		for _, k := range switches[i].ks {
+			rec(i+1, append(chosen, k))
+		}
+	}
+	rec(0, nil)
+	if len(assumptions) == 0 {
+		assumptions = []Assumption{nil}
+	}
+	isStoreOf := func(f *types.Var) func(ssa.Instruction) bool {
+		return func(in ssa.Instruction) bool {
+			st, ok := in.(*ssa.Store)
+			return ok && fieldOfAddr(st.Addr) == f && paramIndex(st.Addr.(*ssa.FieldAddr).X) == 0
+		}
+	}
+	// loads combined with another policy set
+	n := 0
+	AllInstrs(fn, func(in ssa.Instruction) {
+		call, ok := in.(*ssa.Call)
+		if !ok {
+			return
+		}
+		g := call.Common().StaticCallee()
+		if g == nil || g.Pkg == nil || g.Pkg.Pkg.Path() != pkgK8sCpuset {
+			return
+		}
+		var loads []*ssa.UnOp
+		for _, a := range call.Common().Args {
+			Origins(variadicSingle(a), func(v ssa.Value) bool {
+				if f, b := loadedField(v); f != nil && fields[f] && paramIndex(b) == 0 {
+					loads = append(loads, v.(*ssa.UnOp))
+					return true
+				}
+				if c2, ok := v.(*ssa.Call); ok {
+					if g2 := c2.Common().StaticCallee(); g2 != nil && g2.Pkg != nil && g2.Pkg.Pkg.Path() == pkgK8sCpuset {
+						return false
+					}
+					return true
+				}
+				return false
+			})
+		}
+		if len(loads) == 0 || len(call.Common().Args) < 2 {
+			return
+		}
+		for _, ld := range loads {
+			f, _ := loadedField(ld)
+			n++
+			ok, why := true, ""
+			for _, asm := range assumptions {
+				if asm != nil && !reachableBlock(fn, ld.Block(), asm) {
+					continue
+				}
+				if p := FindPath(PathQuery{Fn: fn, Assume: asm, Block: isStoreOf(f), Target: func(x ssa.Instruction) bool { return x == ssa.Instruction(ld) }}); p != nil {
+					ok, why = false, "reads the value left by an earlier configuration: "+e.pathString(p)
+					break
+				}
+				// … and the value examined is the one in force at a successful return
+				if p := FindPath(PathQuery{Fn: fn, From: ld, Assume: asm, Target: isStoreOf(f), Block: func(x ssa.Instruction) bool { return x == ssa.Instruction(ld) }}); p != nil {
+					last := p[len(p)-1]
+					if p2 := FindPath(PathQuery{Fn: fn, From: last, Assume: asm, Target: func(x ssa.Instruction) bool {
+						ret, ok := x.(*ssa.Return)
+						return ok && e.maySucceed(ret)
+					}}); p2 != nil {
+						ok, why = false, "the set is replaced after it was examined, at "+e.InstrPos(last)
+						break
+					}
+				}
+			}
+			r.Check("R11:constraints-validate-installed#"+f.Name(), rule, "checkConstraints examines and derives from the allowed / isolated / reserved sets it installs in this call (not those of a previous configuration), and does not replace them after examining them", e.InstrPos(ld), fn, ok, why, true)
+		}
+	})
+	r.MinInstances("policy-set reads combined in checkConstraints", n, 3)
 }
